@@ -197,6 +197,8 @@ class Program:
         self._subs_cache: dict[str, list[ClassInfo]] | None = None
         self.parse_failures: list[str] = []
         self.else_flattened = 0    # redundant `else` after a non-falling-through branch removed (canonical form, see normalize.flatten_else)
+        self.tuple_assigns_split = 0   # canonical form: `a, b = x, y` -> `a = x` / `b = y` (normalize.canonical_forms)
+        self.negations_distributed = 0  # canonical form: `not (a and b)` -> `not a or not b` (normalize.canonical_forms)
         self.fill_loops_folded = 0   # `A = []; for v in IT: [if C:] A.append(E)` with new locals A, v folded back to a comprehension (normalize.fold_new_fill_loops)
         self.adjacent_temps_inlined = 0  # `T = E; <stmt reading T first and only>` pairs with a new local T folded back (normalize.inline_adjacent_temps)
         self.locals_recovered = 0  # locals renamed back to their reference names (see localnames.py)
@@ -222,6 +224,9 @@ class Program:
                     with open(path, encoding="utf-8") as fh:
                         src = fh.read()
                     tree = ast.parse(src, filename=path)
+                    sp_, di_ = normalize.canonical_forms(tree)
+                    prog.tuple_assigns_split += sp_
+                    prog.negations_distributed += di_
                     prog.locals_recovered += localnames.recover(tree, rel)
                     prog.helpers_inlined += normalize.inline_new_helpers(tree, rel)
                     prog.helpers_inlined += normalize.inline_new_predicates(tree, rel)
